@@ -128,3 +128,23 @@ Example ex_build_bad_resolve_unloaded : build_trace_ok 1 1 [PSB 0; PSE 0; PResK 
 Proof. vm_compute. reflexivity. Qed.
 Example ex_build_bad_load_after_end : build_trace_ok 1 1 [PSB 0; PSE 0; PEB 0 true; PLoad 0] = false.
 Proof. vm_compute. reflexivity. Qed.
+
+(* ---- watch mode: a change during a build triggers one more build ---- *)
+From V Require Import C20.WatchServe.
+Definition ex_watch : list wact :=
+  [XWatch; XClientStart; XClientRead; XEdit; XClientFinish;          (* first watch-mode build reads v0, edit during it *)
+   XWatcher; XWatcher; XWatcher; XWatcher; XWatcher;                  (* check, tick: dirty -> own build, read, publish, set *)
+   XWatcher; XWatcher; XServeRecent;                                  (* check, tick: clean; the dev server answers from build 1 *)
+   XDisposeStart; XWatcher; XDisposeReturn].
+Example ex_watch_trace : option_map snd (wrun ws0 ex_watch) =
+  Some [WTau; WTau; WTau; WEdit; WTau; WTau; WBuild 1; WTau; WTau; WTau; WTau; WTau; WServed 1; WTau; WTau; WTau].
+Proof. vm_compute. reflexivity. Qed.
+Example ex_watch_final : option_map (fun x => (w_watched (fst x), w_wbuilds (fst x), w_dispRet (fst x))) (wrun ws0 ex_watch)
+  = Some (1%nat, 1%nat, true).
+Proof. vm_compute. reflexivity. Qed.
+(* Dispose cannot return while the watcher goroutine is still running *)
+Example ex_dispose_waits_for_watcher : wrun ws0 [XWatch; XDisposeStart; XDisposeReturn] = None.
+Proof. vm_compute. reflexivity. Qed.
+(* the trace specification discriminates: a second watcher build without a new change *)
+Example ex_watch_bad : wtrace_ok 0 [WEdit; WBuild 1; WBuild 2] = false.
+Proof. vm_compute. reflexivity. Qed.
